@@ -13,6 +13,7 @@ import (
 	mocker "github.com/tencent/goom"
 	"github.com/tencent/goom/arg"
 	"github.com/tencent/goom/zverif/corpus"
+	"github.com/tencent/goom/zverif/corpusb"
 	"github.com/tencent/goom/zverif/vkit"
 	"pgregory.net/rapid"
 )
@@ -55,9 +56,9 @@ type histCase struct {
 
 // targets: 0..2 functions, 3..4 methods, 5..6 interface methods, 7 variable, 8 a function addressed by name only,
 // 9 an unexported method addressed by name only
-const nT = 10
+const nT = 12
 
-var tnames = []string{"fA", "fB", "fC", "(*M).A", "(*M).B", "IF.P", "IF.Q", "var gv", "fE (by name)", "(*M).c (by name)"}
+var tnames = []string{"fA", "fB", "fC", "(*M).A", "(*M).B", "IF.P", "IF.Q", "var gv", "fE (by name)", "(*M).c (by name)", "corpusb.pf (Pkg by name)", "corpusb.(*t08).mul (Pkg by name)"}
 
 //go:noinline
 func fE(x int) int { return x*10 + 6 }
@@ -91,7 +92,7 @@ func guard(f func()) (pv interface{}) {
 }
 
 func orig(t, x int) int {
-	return x*10 + map[int]int{0: 1, 1: 2, 2: 3, 3: 4, 4: 5, 8: 6, 9: 7}[t]
+	return x*10 + map[int]int{0: 1, 1: 2, 2: 3, 3: 4, 4: 5, 8: 6, 9: 7, 10: 8, 11: 9}[t]
 }
 
 func callT(t, x int) (r int, pv interface{}) {
@@ -115,6 +116,10 @@ func callT(t, x int) (r int, pv interface{}) {
 			r = fE(x)
 		case 9:
 			r = (&M{k: 1}).c(x)
+		case 10:
+			r = corpusb.CallPF(x)
+		case 11:
+			r = corpusb.CallT08Mul(x)
 		}
 	})
 	return
@@ -157,6 +162,10 @@ func emFresh(b *mocker.Builder, t int) mocker.ExportedMocker {
 		return b.ExportFunc("fE").As(asFunc)
 	case 9:
 		return b.Struct(&M{}).ExportMethod("c").As(asMeth)
+	case 10:
+		return b.Pkg(corpusb.PkgPath).ExportFunc("pf").As(corpusb.AsPF)
+	case 11:
+		return b.Pkg(corpusb.PkgPath).ExportStruct("*t08").Method("mul").As(corpusb.AsT08Mul)
 	default:
 		return b.Interface(&ifv).Method("Q").As(asP)
 	}
@@ -169,6 +178,10 @@ func canceller(b *mocker.Builder, t int) mocker.Mocker {
 		return b.ExportFunc("fE")
 	case 9:
 		return b.Struct(&M{}).ExportMethod("c")
+	case 10:
+		return b.Pkg(corpusb.PkgPath).ExportFunc("pf")
+	case 11:
+		return b.Pkg(corpusb.PkgPath).ExportStruct("*t08").Method("mul")
 	}
 	return em(b, t)
 }
@@ -185,6 +198,10 @@ func applyCb(b *mocker.Builder, t int, c int) {
 		b.ExportFunc("fE").Apply(func(x int) int { return c })
 	case t == 9:
 		b.Struct(&M{}).ExportMethod("c").Apply(func(m *M, x int) int { return c })
+	case t == 10:
+		b.Pkg(corpusb.PkgPath).ExportFunc("pf").Apply(func(x int) int { return c })
+	case t == 11:
+		b.Pkg(corpusb.PkgPath).ExportStruct("*t08").Method("mul").Apply(corpusb.MkT08MulCb(c))
 	default:
 		b.Interface(&ifv).Method("Q").Apply(func(ctx *mocker.IContext, x int) int { return c })
 	}
@@ -343,7 +360,7 @@ func runHist(ci interface{}, s *vkit.Stats) error {
 				continue
 			}
 			pv = guard(func() {
-				if t == 9 {
+				if t == 9 || t == 11 {
 					// an unexported method exported with As(func(recv, args...)) is a plain function for the matcher: the
 					// receiver is its first parameter
 					em(b, t).When(arg.Any(), x).Return(v)
@@ -421,7 +438,7 @@ func runHist(ci interface{}, s *vkit.Stats) error {
 		}
 		// after every instruction, every target behaves according to its most recent instruction
 		if op.K != "call" {
-			for _, tt := range []int{0, 1, 2, 3, 4, 5, 6, 8, 9} {
+			for _, tt := range []int{0, 1, 2, 3, 4, 5, 6, 8, 9, 10, 11} {
 				if err := checkCall(step, tt, (x+tt)%4); err != nil {
 					return fmt.Errorf("after %s on %s: %v", op.K, tnames[t], err)
 				}
@@ -460,7 +477,7 @@ func TestVerifC12(t *testing.T) {
 			ops := rapid.SliceOfN(opGen, 2, 20).Draw(rt, "ops")
 			// concentrate a history on two targets so that alternations happen
 			// pairs that belong together get extra weight: the two methods of the interface variable, the two methods of M
-			pairs := [][2]int64{{5, 6}, {5, 6}, {3, 4}, {0, 1}, {0, 7}, {2, 5}, {6, 3}, {8, 9}, {8, 0}, {9, 3}}
+			pairs := [][2]int64{{5, 6}, {5, 6}, {3, 4}, {0, 1}, {0, 7}, {2, 5}, {6, 3}, {8, 9}, {8, 0}, {9, 3}, {10, 11}, {10, 8}, {11, 9}, {10, 0}}
 			t0 := int64(rapid.IntRange(0, nT-1).Draw(rt, "t0"))
 			t1 := int64(rapid.IntRange(0, nT-1).Draw(rt, "t1"))
 			if rapid.Bool().Draw(rt, "paired") {
